@@ -41,6 +41,43 @@ def corpus(seed, n, tier):
     return plans
 
 
+def heap_noise(level):
+    """Heap-layout perturbation (a fault kind of World X): before a plan runs in its forked child, allocate
+    objects of many sizes and free an irregular part of them, so that the allocator's free lists - and with
+    them which freed address the next Context, Lattice or Concept is given - differ from the unperturbed
+    execution.  Results must not depend on it; a library that keys state by id() does."""
+    if not level:
+        return None
+    import random
+    r = random.Random(level)
+    junk = []
+    for _ in range(400 * level):
+        k = r.randrange(6)
+        if k == 0:
+            junk.append([None] * r.randrange(1, 60))
+        elif k == 1:
+            junk.append({i: None for i in range(r.randrange(1, 30))})
+        elif k == 2:
+            junk.append(type('J', (), {})())
+        elif k == 3:
+            junk.append(bytearray(r.randrange(16, 600)))
+        elif k == 4:
+            junk.append(tuple(range(r.randrange(1, 40))))
+        else:
+            junk.append({'a', r.random()})
+    keep = [x for x in junk if r.random() < 0.4]
+    del junk
+    return keep
+
+
+def run_plan_noisy(arg):
+    keep = heap_noise(arg.pop('heap_noise', 0))
+    try:
+        return driver.run_plan(arg)
+    finally:
+        del keep
+
+
 def exec_plans_stdin():
     """(internal) execute the plans given on stdin under this interpreter's hash seed."""
     core.use_repo()
@@ -49,9 +86,10 @@ def exec_plans_stdin():
     for plan in payload['plans']:
         plan = dict(plan, keep_lines=payload.get('lines', False))
         try:
-            res = core.isolated_call(driver.run_plan, {'plan': plan, 'props': payload.get('props', []), 'known': []},
-                                     timeout=300)
-            item = {'digest': res['digest'], 'n_events': res['n_events'], 'sched': res['sched']}
+            res = core.isolated_call(run_plan_noisy, {'plan': plan, 'props': payload.get('props', []), 'known': [],
+                                                      'heap_noise': payload.get('heap_noise', 0)}, timeout=300)
+            item = {'digest': res['digest'], 'n_events': res['n_events'], 'sched': res['sched'],
+                    'side': res.get('side', [])}
             if payload.get('lines'):
                 item['lines'] = res.get('lines', [])
         except core.HarnessError as e:
@@ -61,7 +99,7 @@ def exec_plans_stdin():
     return 0
 
 
-def spawn(plans, hashseed, lines=False, setarch=False):
+def spawn(plans, hashseed, lines=False, setarch=False, noise=0):
     env = dict(os.environ)
     env['PYTHONHASHSEED'] = str(hashseed)
     env['PYTHONDONTWRITEBYTECODE'] = '1'
@@ -71,7 +109,7 @@ def spawn(plans, hashseed, lines=False, setarch=False):
         cmd = ['setarch', 'x86_64', '-R'] + cmd
     p = subprocess.Popen(cmd, stdin=subprocess.PIPE, stdout=subprocess.PIPE, stderr=subprocess.PIPE,
                          env=env, cwd=core.VERIF_DIR)
-    p.stdin.write(json.dumps({'plans': plans, 'lines': lines, 'props': ['C17']}).encode())
+    p.stdin.write(json.dumps({'plans': plans, 'lines': lines, 'props': ['C17'], 'heap_noise': noise}).encode())
     p.stdin.close()
     return p
 
@@ -96,10 +134,10 @@ def collect(p, timeout=1800):
     return res
 
 
-def run_under(plans, hashseed, lines=False, setarch=False, parallel=4):
+def run_under(plans, hashseed, lines=False, setarch=False, parallel=4, noise=0):
     """Execute all plans under one hash seed, split over ``parallel`` interpreters."""
     chunks = [plans[i::parallel] for i in range(parallel)]
-    procs = [(c, spawn(c, hashseed, lines, setarch)) for c in chunks if c]
+    procs = [(c, spawn(c, hashseed, lines, setarch, noise)) for c in chunks if c]
     res = {}
     for c, p in procs:
         for plan, r in zip(c, collect(p)):
@@ -107,11 +145,32 @@ def run_under(plans, hashseed, lines=False, setarch=False, parallel=4):
     return [res[p['xid']] for p in plans]
 
 
-def differs(plan, seeds, setarch_flags=(False, False)):
+def side_diff(a, b, known):
+    """Compare the side channels of two executions entry by entry.
+
+    Returns (unexcused, excused): ``unexcused`` is the first differing entry that no open known finding
+    covers (or None), ``excused`` the list of known findings that explain the other differences."""
+    excused = []
+    if len(a) != len(b):
+        return {'line': -1, 'a': f'<{len(a)} side entries>', 'b': f'<{len(b)} side entries>'}, excused
+    for x, y in zip(a, b):
+        if x == y:
+            continue
+        for k in known:
+            m = k.get('match', {})
+            if (x[:3] == y[:3] and x[1] == m.get('event') and x[2] == m.get('outcome')):
+                excused.append(k)
+                break
+        else:
+            return {'line': x[0], 'a': f'{x[0]} {x[1]} -> {x[2]} {x[3]}'[:600], 'b': f'{y[0]} {y[1]} -> {y[2]} {y[3]}'[:600]}, excused
+    return None, excused
+
+
+def differs(plan, seeds, setarch_flags=(False, False), noise=0):
     a = run_under([plan], seeds[0], lines=True, parallel=1, setarch=setarch_flags[0])[0]
-    b = run_under([plan], seeds[1], lines=True, parallel=1, setarch=setarch_flags[1])[0]
+    b = run_under([plan], seeds[1], lines=True, parallel=1, setarch=setarch_flags[1], noise=noise)[0]
     if a['digest'] == b['digest']:
-        return None
+        return side_diff(a.get('side', []), b.get('side', []), driver.open_known('C17'))[0]
     la, lb = a['lines'], b['lines']
     for k, (x, y) in enumerate(zip(la, lb)):
         if x != y:
@@ -119,15 +178,15 @@ def differs(plan, seeds, setarch_flags=(False, False)):
     return {'line': min(len(la), len(lb)), 'a': f'<{len(la)} lines>', 'b': f'<{len(lb)} lines>'}
 
 
-def minimise(plan, seeds, flags, budget_s=240):
+def minimise(plan, seeds, flags, budget_s=240, noise=0):
     t0 = time.monotonic()
     events = list(plan['events'])
-    d = differs(plan, seeds, flags)
+    d = differs(plan, seeds, flags, noise)
     if d is None:
         return plan, None
     try:
         cut = int(d['a'].split(' ', 1)[0]) + 1
-        if differs(dict(plan, events=events[:cut]), seeds, flags):
+        if differs(dict(plan, events=events[:cut]), seeds, flags, noise):
             events = events[:cut]
     except ValueError:
         pass
@@ -137,7 +196,7 @@ def minimise(plan, seeds, flags, budget_s=240):
         reduced = False
         for start in range(0, len(events), size):
             cand = events[:start] + events[start + size:]
-            if cand and differs(dict(plan, events=cand), seeds, flags):
+            if cand and differs(dict(plan, events=cand), seeds, flags, noise):
                 events, reduced = cand, True
                 n = max(n - 1, 2)
                 break
@@ -148,11 +207,15 @@ def minimise(plan, seeds, flags, budget_s=240):
                 break
             n = min(len(events), n * 2)
     small = dict(plan, events=events)
-    return small, differs(small, seeds, flags)
+    return small, differs(small, seeds, flags, noise)
 
 
 def replay(rp, path):
-    d = differs(rp['plan'], rp['seeds'], tuple(rp.get('setarch', (False, False))))
+    d = None
+    for _ in range(int(rp.get('attempts', 1))):    # address-dependent failures may need several process images
+        d = differs(rp['plan'], rp['seeds'], tuple(rp.get('setarch', (False, False))), rp.get('noise', 0))
+        if d is not None:
+            break
     if d is not None:
         print(f'reproduced: transcripts under PYTHONHASHSEED={rp["seeds"][0]} and {rp["seeds"][1]} differ at line '
               f'{d["line"]}:\n  {d["a"]}\n  {d["b"]}')
@@ -171,14 +234,17 @@ def explore(prop, tier, seed, spec):
     rng = core.rng_for(seed, 'Xseeds', 0)
     seeds = [0, 1, 2] + [rng.randrange(3, 2 ** 32 - 1) for _ in range(max(0, k - 3))]
     seeds = seeds[:k]
-    par = max(1, 16 // (k + 2))
     has_setarch = seams.setarch_available()
     # all executions run concurrently: K seeds + a repeat of the first (determinism precondition) + ASLR off
-    jobs = [(hs, False) for hs in seeds] + [(seeds[0], False)] + ([(seeds[1], True)] if has_setarch else [])
+    # (hash seed, ASLR off, heap perturbation level)
+    jobs = ([(hs, False, 0) for hs in seeds] + [(seeds[0], False, 1)]
+            + ([(seeds[1], True, 2)] if has_setarch else [])
+            + [(seeds[i % len(seeds)], False, 3 + i) for i in range(2 if tier == 'quick' else 4)])
+    par = max(1, 16 // len(jobs))
     procs = []
-    for hs, sa in jobs:
+    for hs, sa, noise in jobs:
         chunks = [plans[i::par] for i in range(par)]
-        procs.append([(c, spawn(c, hs, False, sa)) for c in chunks if c])
+        procs.append([(c, spawn(c, hs, False, sa, noise)) for c in chunks if c])
     table = []
     for pr in procs:
         res = {}
@@ -187,11 +253,7 @@ def explore(prop, tier, seed, spec):
                 res[plan['xid']] = r
         table.append([res[p['xid']] for p in plans])
     base = table[0]
-    repeat = table[len(seeds)]
-    for p, a, b in zip(plans, base, repeat):
-        if a['digest'] != b['digest']:
-            raise core.HarnessError(f'determinism precondition failed: plan {p["xid"]} ({p["world"]}) gives two '
-                                    f'different transcripts under the same PYTHONHASHSEED={seeds[0]}')
+    known = driver.open_known('C17')
     exit_code, n_viol = 0, 0
     reported = 0
     distinct = set()
@@ -206,32 +268,65 @@ def explore(prop, tier, seed, spec):
             rep.samples.append({'world': p['world'], 'config': p['config'], 'events': p['events'][:15],
                                 'events_total': len(p['events']), 'executed_under_hashseeds': seeds,
                                 'transcript_digest': base[i]['digest']})
-        if len(set(digs)) == 1 or reported >= 3:
+        if len(set(digs)) == 1:
+            # transcripts agree: the separately compared outcomes must agree too, or be a listed known finding
+            j = None
+            for jj in range(1, len(table)):
+                bad, excused = side_diff(base[i].get('side', []), table[jj][i].get('side', []), known)
+                for k in excused:
+                    rep.known_hits[('C17', 'C17.transcripts_equal')] = k.get('what', '')
+                    rep.probes['known_finding_differences_seen'] = rep.probes.get('known_finding_differences_seen', 0) + 1
+                if bad is not None and j is None:
+                    j = jj
+            if j is None or reported >= 3:
+                continue
+        elif reported >= 3:
             continue
-        j = next(j for j in range(1, len(table)) if digs[j] != digs[0])
+        else:
+            j = next(j for j in range(1, len(table)) if digs[j] != digs[0])
         pair = [jobs[0][0], jobs[j][0]]
         flags = (jobs[0][1], jobs[j][1])
-        small, d = minimise(p, pair, flags)
+        noise = jobs[j][2]
+        small, d = minimise(p, pair, flags, noise=noise)
+        addr = pair[0] == pair[1]
         if d is None:
-            raise core.HarnessError(f'transcript difference of plan {p["xid"]} did not reproduce')
+            # Same plan and code, yet the difference seen in the batch does not show again: it depends on the
+            # address space (object addresses, id()-keyed containers, re-use of freed addresses) - the one input
+            # the simulator does not own.  On the unchanged tree executions are exactly repeatable (selftest,
+            # every batch so far), so this is attributed to the tree under test and reported, never dropped.
+            addr = True
+            small = p
+            for _ in range(4):
+                d = differs(p, pair, flags, noise)
+                if d is not None:
+                    break
         reported += 1
         n_viol += 1
         path = os.path.join(driver.replays_dir(), f'C17-{seed}-{p["xid"]}.json')
         with open(path, 'w', encoding='utf-8') as f:
-            json.dump({'kind': 'xproc', 'property': 'C17', 'oracle': 'C17.transcripts_equal', 'verif_seed': seed,
-                       'run': p['xid'], 'seeds': pair, 'setarch': list(flags), 'plan': small,
-                       'original_events': len(p['events']), 'minimised_events': len(small['events']),
-                       'first_difference': d}, f, indent=1)
+            rp = {'kind': 'xproc', 'property': 'C17', 'oracle': 'C17.transcripts_equal', 'verif_seed': seed,
+                  'run': p['xid'], 'seeds': pair, 'setarch': list(flags), 'noise': noise, 'plan': small,
+                  'original_events': len(p['events']), 'minimised_events': len(small['events']),
+                  'first_difference': d}
+            if addr:
+                rp.update(address_dependent=True, attempts=6,
+                          reproduces=('the two executions differ only in their address space (same hash seed and/or a '
+                                      'difference that does not show in every pair of processes); '
+                                      + ('seen again when this file was written' if d else
+                                         'not seen again when this file was written')))
+            json.dump(rp, f, indent=1)
             f.write('\n')
-        print(f'violation: C17.transcripts_equal plan={p["xid"]} world={p["world"]} seeds={pair}: line {d["line"]}\n'
-              f'  {d["a"][:300]}\n  {d["b"][:300]}')
+        print(f'violation: C17.transcripts_equal plan={p["xid"]} world={p["world"]} seeds={pair}'
+              + (' (address-dependent)' if addr else '')
+              + (f': line {d["line"]}\n  {d["a"][:300]}\n  {d["b"][:300]}' if d else ''))
         print(f'VIOLATION property=C17 replay={path}')
         exit_code = 1
     rep.scheds = distinct
     rep.nontrivial_runs = len(distinct)
     rep.faults = {'hashseed_switch': len(plans) * (len(seeds) - 1),
                   'aslr_off_execution': len(plans) if has_setarch else 0,
-                  'same_seed_repeat(determinism precondition)': len(plans)}
+                  'same_seed_repeat_with_heap_perturbation': len(plans),
+                  'heap_layout_perturbation': len(plans) * sum(1 for j in jobs if j[2])}
     rep.extra = {'plans': len(plans), 'executions': len(plans) * len(table), 'hashseeds': seeds,
                  'setarch_available': has_setarch,
                  'interpreter_processes': sum(len(pr) for pr in procs),
@@ -242,6 +337,8 @@ def explore(prop, tier, seed, spec):
                           'setarch -R is permitted; all transcripts must be byte-identical; a plan is non-trivial '
                           'when it has >= 3 events; distinct = distinct baseline transcript digests among them')}
     rep.drop = ('distinct_abstract_states', 'distinct_abstract_states_rule', 'nontrivial_runs', 'runs')
+    for (p_, oracle), what in sorted(rep.known_hits.items()):
+        print(f'KNOWN-FINDING: property={p_} {oracle}: {what}')
     driver.write_evidence(rep, spec, n_viol)
     print(f'{prop} {tier} seed={seed}: plans={len(plans)} executions={len(plans) * len(table)} hashseeds={seeds} '
           f'setarch={has_setarch} distinct_transcripts={len(distinct)} wall={time.time() - rep.t0:.1f}s exit={exit_code}')
